@@ -28,9 +28,10 @@ type G struct {
 	Place   []int    `json:"place"`
 	Names   []string `json:"names"`
 	Edge    [][]bool `json:"edge"`
-	SamePfx bool     `json:"same_prefix"` // a and b both declare prefix p (and import each other as pa / pb)
-	OwnPfx  bool     `json:"own_prefix"`  // local bases are spelled with the module's own prefix
-	Undef   int      `json:"undefined"`   // identity that additionally names an undefined base (-1: none)
+	SamePfx bool     `json:"same_prefix"`      // a and b both declare prefix p (and import each other as pa / pb)
+	OwnPfx  bool     `json:"own_prefix"`       // local bases are spelled with the module's own prefix
+	Undef   int      `json:"undefined"`        // identity that additionally names an undefined base (-1: none)
+	SubPfx  bool     `json:"submodule_prefix"` // the submodule imports b under a prefix of its own (z) that its module does not bind: prefixes are scoped per file
 }
 
 func owner(p int) int {
@@ -61,6 +62,8 @@ func (g G) files() []dump.File {
 				fmt.Fprintf(sb, " base %s:%s;", own[oi], g.Names[j])
 			case oi == oj:
 				fmt.Fprintf(sb, " base %s;", g.Names[j])
+			case g.Place[i] == 2 && g.SubPfx:
+				fmt.Fprintf(sb, " base z:%s;", g.Names[j])
 			default:
 				fmt.Fprintf(sb, " base %s:%s;", imp[oi], g.Names[j])
 			}
@@ -74,7 +77,7 @@ func (g G) files() []dump.File {
 	return []dump.File{
 		{Name: "a.yang", Text: fmt.Sprintf(`module a { namespace "urn:a"; prefix %s; import b { prefix %s; } include as;%s }`, own[0], imp[0], body[0])},
 		{Name: "b.yang", Text: fmt.Sprintf(`module b { namespace "urn:b"; prefix %s; import a { prefix %s; }%s }`, own[1], imp[1], body[1])},
-		{Name: "as.yang", Text: fmt.Sprintf(`submodule as { belongs-to a { prefix %s; } import b { prefix %s; }%s }`, own[0], imp[0], body[2])},
+		{Name: "as.yang", Text: fmt.Sprintf(`submodule as { belongs-to a { prefix %s; } import b { prefix %s; }%s }`, own[0], map[bool]string{false: imp[0], true: "z"}[g.SubPfx], body[2])},
 	}
 }
 
@@ -298,6 +301,21 @@ func enum(tier string, f func(G)) {
 							}
 							g := G{N: n, Place: append([]int{}, pl...), Names: append([]string{}, nm[:n]...), Edge: edge, SamePfx: v&1 != 0, OwnPfx: v&2 != 0, Undef: -1}
 							f(g)
+							// an identity in the submodule with a base in b: also with a file-local prefix
+							for i := 0; i < n && v == 0; i++ {
+								usesB := false
+								for j := 0; j < n; j++ {
+									if edge[i][j] && pl[i] == 2 && pl[j] == 1 {
+										usesB = true
+									}
+								}
+								if usesB {
+									gz := g
+									gz.SubPfx = true
+									f(gz)
+									break
+								}
+							}
 							if edges <= 1 && v == 0 {
 								for u := 0; u < n; u++ {
 									gu := g
